@@ -46,7 +46,7 @@ ASSUMPTIONS = {"C13": [
 EXPECTED_PROBES = {"C13": ["probe:expr_cache_hit", "probe:path_cache_hit", "fault:evict_expr_cache", "fault:evict_path_cache",
                            "fault:lru_shrunk", "fault:lru_cleared", "probe:expr_reused_on_new_arrays", "probe:negative_int_labels",
                            "probe:list_inputs_unhashable", "fault:pathfinder_failed_once", "api:einsum", "api:ncon", "api:expr_constants", "probe:constants_mutated_in_place",
-                           "api:array_contract_path", "api:einsum_expression", "probe:explicit_size_dict", "probe:opt_einsum_namespace", "probe:optimizer_instance_shared"]}
+                           "api:array_contract_path", "api:einsum_expression", "probe:explicit_size_dict", "probe:opt_einsum_namespace", "probe:optimizer_instance_shared", "probe:caller_edited_its_path_object"]}
 
 
 def violation_class(v):
@@ -122,6 +122,7 @@ def cold_start():
             d[k] = v.copy() if isinstance(v, dict) else v
     _INSTANCES["subject"] = _new_instance()
     _INSTANCES["use_subject"] = True
+    _HELD_PATHS.clear()
 
 
 def shrink_lrus(maxsize):
@@ -306,6 +307,10 @@ def _gen_pool(rng, sw):
         s2 = copy.deepcopy(s)
         s2["optimize"] = [list(p) for p in _lin_path(rng, n)]
         add(s2, "optimize-explicit-path-2")
+        s3 = copy.deepcopy(base)
+        s3["optimize"] = [list(p) for p in _lin_path(rng, n)]
+        s3["optimize_kind"] = "path-lol"
+        add(s3, "optimize-path-list-of-lists")
     # edge path (an order of indices to eliminate) given as a tuple / list of labels
     names_all = [k for k, _ in base["sizes"]]
     if len(names_all) >= 2:
@@ -447,6 +452,20 @@ def _materialise(spec):
         opt = [tuple(p) for p in opt]
     elif kind == "edge":
         opt = list(opt) if spec.get("edge_as_list") else tuple(opt)
+    elif kind == "path-lol":
+        # an explicit path kept by the caller as a list of lists (e.g. loaded from json)
+        orig = [list(p) for p in opt]
+        key = spec["diff"]
+        if not _INSTANCES["use_subject"]:
+            opt = [list(p) for p in orig]
+        elif key not in _HELD_PATHS:
+            _HELD_PATHS[key] = [list(p) for p in orig]
+            opt = _HELD_PATHS[key]  # first call hands over the caller's own object
+        else:
+            # the caller has meanwhile edited ITS object in place ... and now asks with a fresh, equal-to-the-original path
+            for inner in _HELD_PATHS[key]:
+                inner.reverse()
+            opt = [list(p) for p in orig]
     elif kind == "seeded-object":
         # a fresh seeded optimizer object per call (never hashable for the interface caches)
         from cotengra.pathfinders.path_basic import RandomGreedyOptimizer
@@ -460,6 +479,7 @@ def _materialise(spec):
 
 _INSTANCES = {"subject": None, "use_subject": True}
 _PRISTINE = {}
+_HELD_PATHS = {}
 
 
 def _new_instance():
@@ -710,6 +730,8 @@ def run_case(prop, case):
                 counters["probe:explicit_size_dict"] += 1
             if spec.get("optimize_kind") == "reusable-instance":
                 counters["probe:optimizer_instance_shared"] += 1
+            if spec.get("optimize_kind") == "path-lol" and spec["diff"] in _HELD_PATHS:
+                counters["probe:caller_edited_its_path_object"] += 1
             if isinstance(spec["optimize"], str) and spec["optimize"].startswith("opt_einsum:"):
                 counters["probe:opt_einsum_namespace"] += 1
             if spec["diff"].startswith("labels-ncon"):
